@@ -235,6 +235,27 @@ def build_driver(pid):
     return _locked(go)
 
 
+def coq_deps(relfiles):
+    """transitive closure of `From BCT Require Import/Export A.B …` starting from the given theory files"""
+    seen, todo = [], list(relfiles)
+    while todo:
+        f = todo.pop()
+        if f in seen:
+            continue
+        path = os.path.join(COQ, 'theories', f)
+        if not os.path.exists(path):
+            continue
+        seen.append(f)
+        txt = strip_comments(open(path).read())
+        for m in re.finditer(r'From\s+BCT\s+Require\s+(?:Import|Export)?\s*([^.]*(?:\.[A-Za-z_][^.\s]*)*)\s*\.', txt):
+            for name in m.group(1).split():
+                todo.append(name.replace('.', '/') + '.v')
+        for m in re.finditer(r'Require\s+(?:Import|Export)\s+((?:BCT\.[A-Za-z_.]+\s*)+)\.', txt):
+            for name in m.group(1).split():
+                todo.append(name[4:].replace('.', '/') + '.v')
+    return sorted(seen)
+
+
 def proof_status(mod):
     """Rebuild the Coq development for this property and report what the kernel accepted.
 
@@ -243,12 +264,12 @@ def proof_status(mod):
     pid = mod.ID
     st = {'ok': True, 'obligations': 0, 'discharged': 0, 'assumptions': {}, 'log': '', 'failing': None,
           'forbidden': []}
-    # 1. forbidden tokens anywhere in the development (comments stripped)
-    for root, _, fs in os.walk(os.path.join(COQ, 'theories')):
-        for f in fs:
-            if not f.endswith('.v'):
-                continue
-            txt = open(os.path.join(root, f)).read()
+    # 1. forbidden tokens anywhere in the files this property depends on (comments stripped)
+    files = coq_deps(list(mod.COQ_FILES) + ['Properties/%s.v' % pid, 'Extract/%s.v' % pid])
+    mod.COQ_FILES = [f for f in files if not f.startswith('Extract/')]
+    if True:
+        for f in files:
+            txt = open(os.path.join(COQ, 'theories', f)).read()
             txt = strip_comments(txt)
             for m in FORBIDDEN.finditer(txt):
                 word = m.group(0)
@@ -352,10 +373,15 @@ def parse_assumptions(out, src):
 
 # ---------------------------------------------------------------- known findings
 def load_findings():
+    """known_findings.json (committed; never written at run time)"""
+    out = []
     p = os.path.join(VERIF, 'known_findings.json')
-    if not os.path.exists(p):
-        return []
-    return json.load(open(p))['findings']
+    if os.path.exists(p):
+        out += json.load(open(p))['findings']
+    import glob
+    for f in sorted(glob.glob(os.path.join(VERIF, 'known_findings.d', '*.json'))):
+        out += json.load(open(f))['findings']
+    return out
 
 
 # ---------------------------------------------------------------- context
